@@ -138,6 +138,8 @@ CallF(op, tag, bits, via) == [Call(op, <<tag>>, <<Z0>>) EXCEPT !.a = <<ZToLimbs(
 (* exact dyadic values written as floats by the spec itself *)
 FV(fmt, s, n, e) == FEncode(fmt, FRound(fmt, s, n, e))
 TieN == {ZN(1), ZN(3), ZN(5), ZN(255), ZN(65535), ZN(65537), P(23) ++ Z1, P(24) -- Z1, P(31) -- Z1, P(40) ++ Z1, P(46) ++ Z1, P(47) -- Z1}
+TieBeside(k) == {(((m ** ZN(2)) ++ Z1) ** P(k - 24)) ++ d :
+                   m \in {P(23), P(23) ++ Z1, P(23) ++ ZN(2), P(23) ++ ZN(5), P(24) -- Z1, P(23) ++ P(22)}, d \in {Z1, ZN(-1), P(k - 55), ZNeg(P(k - 55))}}
 Jobs_C05 ==
    S2Q({CallF("fl2f", "f32", B32(sg, E, M), via) : sg \in {0, 1}, E \in 0..255, M \in M32, via \in {"", "ctor"}})
    \o S2Q({CallF("fl2f", "f64", B64(sg, E, M), via) : sg \in {0, 1}, E \in E64, M \in M64, via \in {""}})
@@ -158,6 +160,8 @@ Jobs_C05 ==
         RandB("rt_d", <<"fx">>, NR(10000, 400000), Seed + 9, 47), Sweep("rt_d", "fx", ZNeg(P(17)), P(17), NR(11, 1)),
         Sweep("rt_d", "fx", DomLim -- ZN(2000), DomLim -- Z1, 1), Sweep("rt_d", "fx", ZNeg(DomLim) ++ Z1, ZNeg(DomLim) ++ ZN(2000), 1)>>
    \o S2Q({Call(op, <<"fx">>, <<x>>) : op \in {"f2d", "f2f", "rt_d"}, x \in LmFinite})
+   (* fixed -> float of raws just beside a binary32 tie by LESS than half a binary64 ulp (a conversion that goes through double rounds twice) *)
+   \o S2Q({CallVia("f2f", <<"fx">>, <<x>>, via, "fx") : via \in {"", "cast"}, x \in PM(UNION {TieBeside(k) : k \in 54..62})})
 
 (* float carriers of a degree count (C20) *)
 Jobs_C20F == S2Q({CallF(op, "f32", FV(F32, s, ZN(d), 0), "") : op \in {"sin_angle", "cos_angle", "tan_angle"}, s \in {1, -1}, d \in {0, 1, 30, 45, 89, 90, 91, 179, 180, 270, 359, 360}})
